@@ -165,7 +165,8 @@ def run(ctx):
     # ---- the same over the whole supply range: exact decimal text of n satoshi in every unit -------------------------------
     from decimal import Decimal
     codes = {NETWORK_DEFINITIONS[n]['currency_code'].upper() for n in NETWORK_DEFINITIONS}
-    big = [SUPPLY - rng.randrange(2000) for _ in range(40 if not T else 400)] + [rng.randrange(SUPPLY + 1) for _ in range(40 if not T else 400)]
+    big = [SUPPLY - rng.randrange(2000) for _ in range(40 if not T else 400)] + [rng.randrange(SUPPLY + 1) for _ in range(40 if not T else 400)] + \
+          [rng.randrange(2 ** 24 * 10 ** 8, SUPPLY + 1) for _ in range(60 if not T else 400)]
     for net in ('bitcoin', 'litecoin', 'dogecoin', 'testnet'):
         nw = Network(net)
         code = nw.currency_code
@@ -174,7 +175,7 @@ def run(ctx):
                 continue                      # 'TBTC' is the testnet currency, not tera-BTC
             fden = Fraction(str(den)) if den < 1 else Fraction(int(den))
             unit_sat = fden / Fraction(str(nw.denominator))
-            for n in rng.sample(big, 12 if not T else 120):
+            for n in rng.sample(big, (12 if den < 10 else 40) if not T else 120):
                 q = Fraction(n) / unit_sat
                 txt = format(Decimal(q.numerator) / Decimal(q.denominator), 'f')
                 if Fraction(txt) != q:
